@@ -599,6 +599,7 @@ theorem itemHas_fold {it : ClsItem} (h : itemNoRange it = true) (d : Char) :
   cases it with
   | chr c => simp [itemHas, foldItem, chrEq]
   | range lo hi => simp [itemNoRange] at h
+  | named k => simp [itemNoRange] at h
 
 theorem clsHas_fold {neg : Bool} {items : List ClsItem} (h : items.all itemNoRange = true) (d : Char) :
     clsHas true neg items d = clsHas false neg (items.map foldItem) (fold d) := by
